@@ -455,7 +455,7 @@ routine track of the fragment (`SongTop.RoutineTrack`: before its first note, wh
 any loop, only commands without time and loops of them) whose expansion — the routine as
 `Timeline.ticksOf` calls it — is defined; `SongTop.LoopDrumOK root` = the loop section of a channel
 track ends in the drum-mode state it starts in.  Outside these two conditions the writer's drum-mode
-state (text order) and the driver's (execution order) differ: known finding D25.
+state (text order) and the driver's (execution order) differ: known finding D27.
 The converter is `MdsFile.construct` (the constructor model of C09, with the index checks;
 `Mds.convertSong` of the first layer stops at macro tracks and has no index check — for songs of
 the fragment both assemble the same chunk, which is not proved here but compared on every run by
